@@ -33,9 +33,8 @@ Definition check_cronsys (c : json) : json :=
                            | o :: _ => if late then "" else String.append "scheduled rule: expected runs/presence differ at " (String.append (jfS "loc" o) (String.append "/" (jfS "id" o)))
                            | [] => "" end));
         ("spec_op", JStr "scheduled-rule-runs-once-in-its-location");
-        (* D38: cron.Rem of the head job does not re-arm the timer: the jobs behind it stall *)
-        ("kf", jstrs_of (if good then [] else
-                         if existsb (fun o => String.eqb (jfS "op" o) "remrule" && jfB "ok" o) ops then ["D38"] else []));
+        (* (D38, cron.Rem of the head job did not re-arm the timer, is repaired in /repo: nothing is excused) *)
+        ("kf", JArr []);
         ("features", jstrs_of ((if shared then ["same-id-scheduled-in-two-locations"] else []) ++
                                (if existsb (fun o => String.eqb (jfS "op" o) "remrule" && jfB "ok" o) ops then ["removed-before-due"] else []) ++
                                (if existsb (fun o => String.eqb (jfS "op" o) "addplain" && jfB "ok" o) ops then ["replaced-before-due"] else []) ++
